@@ -893,6 +893,20 @@ def type_aliases(j):
         rivals = [m for m in missing if m != p and (m.rsplit('::', 1)[0] if '::' in m else '') == parent and tab[m] == want]
         if len(cands) == 1 and not rivals:
             out[cands[0]] = p
+            continue
+        if cands:
+            continue
+        # moved to another module under the same name, same shape
+        moved = []
+        for q, a in present.items():
+            if q in tab or a.get('vis') == 'pub' or q.rsplit('::', 1)[-1] != pname or a['kind'] != want['kind']:
+                continue
+            shape = [[v['name'] if a['kind'] == 'enum' else '', [f['ty'].replace(q, p) for f in v['fields']]] for v in a['variants']]
+            if shape == want['variants']:
+                moved.append(q)
+        same_name_missing = [m for m in missing if m != p and m.rsplit('::', 1)[-1] == pname]
+        if len(moved) == 1 and not same_name_missing:
+            out[moved[0]] = p
     return out
 
 
